@@ -35,11 +35,17 @@ func Run(r *rt.Run) error {
 		for at := 1; at <= n; at++ {
 			scs = append(scs, Scenario{Node: node, Kind: "pointErr", At: at, N: n, Trig: "div0"})
 			scs = append(scs, Scenario{Node: node, Kind: "pointErr", At: at, N: n, Trig: "substr"})
+			scs = append(scs, Scenario{Node: node, Kind: "pointErr", At: at, N: n, Trig: "missing"})
 		}
 	}
 	for at := 1; at <= n; at++ {
 		scs = append(scs, Scenario{Node: 2, Kind: "nodeErr", At: at, N: n})
 	}
+	// flood variants: a node failure deep in the chain followed by more points than three edge buffers hold
+	for node := 2; node <= 3; node++ {
+		scs = append(scs, Scenario{Node: node, Kind: "panic", At: 2, N: n, Flood: 3500})
+	}
+	scs = append(scs, Scenario{Node: 2, Kind: "nodeErr", At: 2, N: n, Flood: 3500})
 	reps := 1
 	if r.Thorough() {
 		reps = 5 // schedules differ from run to run (Go scheduler); every observed outcome must be allowed
@@ -93,11 +99,12 @@ func Run(r *rt.Run) error {
 	t := r.NewTrace("trace")
 	for _, x := range results {
 		t.Reset(nil)
-		t.Event("Scenario", rt.M{"node": x.sc.Node, "kind": x.sc.Kind, "at": x.sc.At, "n": x.sc.N, "trig": x.sc.Trig})
+		t.Event("Scenario", rt.M{"node": x.sc.Node, "kind": x.sc.Kind, "at": x.sc.At, "n": x.sc.N, "trig": x.sc.Trig, "flood": x.sc.Flood})
 		t.Event("Outcome", rt.M{"alive": x.out.Alive, "vDelivered": ints(x.out.VDelivered), "bDelivered": ints(x.out.BDelivered),
 			"vErrs": x.out.VErrs, "vNodeFailed": x.out.VNodeFailed, "bNodeFailed": x.out.BNodeFailed,
-			"stopReturned": x.out.StopReturned, "leaked": x.out.Leaked, "note": x.out.Note})
-		t.Distinct(fmt.Sprintf("%d/%s/%d/%s", x.sc.Node, x.sc.Kind, x.sc.At, x.sc.Trig))
+			"stopReturned": x.out.StopReturned, "leaked": x.out.Leaked, "note": x.out.Note,
+			"flood": x.sc.Flood, "bFlood": x.out.BFlood, "writeBlocked": x.out.WriteBlocked})
+		t.Distinct(fmt.Sprintf("%d/%s/%d/%s/%d", x.sc.Node, x.sc.Kind, x.sc.At, x.sc.Trig, x.sc.Flood))
 	}
 	r.Extra["scenarios"] = len(scs)
 	r.Extra["repetitions"] = reps
